@@ -535,11 +535,140 @@ def run(model: Model, rep, tier: str) -> None:
     if [n for n in missing if n not in els] or real_missing:
         raise AnalysisError(f"frozen rule instances vanished: {missing}")
     _check_mapping(model, rep)
+    _wrappers(model, rep)
     rep.require_min("C09-R1", 240)
     rep.require_min("C09-R2", 20)
     rep.require_min("C09-R3", 28)
     rep.require_min("C09-R4", 7)
     rep.require_min("C09-R5", 30)
+
+
+def _wrappers(model: Model, rep) -> None:
+    """R6 (second half): wrapper elements forward every field of the
+    wrapped element's basis function, for the requested arguments."""
+    R6 = "C09-R6"
+    # ---- ElementVector.gbasis
+    cls = model.cls("skfem.element.element_vector", "ElementVector")
+    fn = cls.methods["gbasis"]
+    calls = []
+
+    class Fld:
+        skv_isarray = True
+
+        def __init__(self, tag):
+            self.tag = tag
+            self.shape = ("S",)
+
+        def skv_getattr(self, name):
+            if name == "shape":
+                return ("S", "Q")
+            raise Unsupported("field." + name)
+
+    class Tmp:
+        def __init__(self, shape):
+            self.shape, self.stores = shape, []
+
+        def skv_setitem(self, ix, v):
+            self.stores.append((ix, v))
+    f0, f2 = Fld("value"), Fld("grad")
+
+    def inner_gbasis(a, k, n):
+        calls.append((a, k))
+        return (Obj(None, {"astuple": (f0, None, f2)}),)
+
+    def hook(interp, name, args, kwargs, node):
+        if name == "numpy.zeros":
+            return Tmp(args[0])
+        if name.endswith("DiscreteField"):
+            return ("DF", args)
+        return NotImplemented
+    dim = 3
+    for i in (0, 4, 8):
+        calls.clear()
+        obj = Obj(cls, {"elem": Obj(None, {"gbasis": PyFunc(inner_gbasis)}),
+                        "_dim": dim})
+        try:
+            r = Interp(model, call_hook=hook).call(
+                fn, ["MAP", "X", i, "TIND"], {}, self_obj=obj)
+        except (Unsupported, Raised) as e:
+            raise AnalysisError(f"ElementVector.gbasis: {e}")
+        ok = False
+        detail = repr(r)[:120]
+        if isinstance(r, tuple) and len(r) == 1 and r[0][0] == "DF":
+            flds = r[0][1]
+            ok = (len(flds) == 3 and flds[1] is None
+                  and all(isinstance(flds[j], Tmp) and
+                          flds[j].shape[0] == dim and
+                          flds[j].stores == [(i % dim, src_)]
+                          for j, src_ in ((0, f0), (2, f2)))
+                  and len(calls) == 1
+                  and list(calls[0][0][:3]) == ["MAP", "X", i // dim]
+                  and (tuple(calls[0][0][3:]) == ("TIND",)
+                       or calls[0][1].get("tind") == "TIND"))
+        cons = f"ElementVector.gbasis[i={i}]"
+        if ok:
+            rep.ok(R6, cons, f"every field of scalar function {i // dim} is "
+                   f"placed in component {i % dim} of a zero "
+                   f"{dim}-vector; absent fields stay None")
+        else:
+            rep.fail(R6, cls.path, "ElementVector.gbasis", cons,
+                     f"fields of the wrapped element are not all forwarded "
+                     f"into component i % dim of function i // dim for the "
+                     f"requested cells ({detail})", fn.lineno)
+    # ---- ElementDG forwards everything unchanged
+    dg = model.cls("skfem.element.element_dg", "ElementDG")
+    for meth in ("gbasis", "lbasis"):
+        f = dg.methods[meth]
+        got = []
+        obj = Obj(dg, {"elem": Obj(None, {meth: PyFunc(
+            lambda a, k, n: got.append((a, k)) or "RESULT")})})
+        try:
+            r = Interp(model).call(f, ["A", "B"], {"tind": "T"},
+                                   self_obj=obj)
+        except (Unsupported, Raised) as e:
+            raise AnalysisError(f"ElementDG.{meth}: {e}")
+        ok = r == "RESULT" and got == [(["A", "B"], {"tind": "T"})]
+        cons = f"ElementDG.{meth}"
+        if ok:
+            rep.ok(R6, cons, "arguments and result forwarded unchanged")
+        else:
+            rep.fail(R6, dg.path, f"ElementDG.{meth}", cons,
+                     "the wrapped element is not called with the same "
+                     "arguments or its result is altered", f.lineno)
+    # ---- ElementComposite.gbasis: component n gets function ind, others 0
+    cc = model.cls("skfem.element.element_composite", "ElementComposite")
+    f = cc.methods["gbasis"]
+    log = []
+
+    def mk(k):
+        def gb(a, kw, n, k=k):
+            log.append((k, a))
+            return (Obj(None, {"zeros": PyFunc(lambda a2, k2, n2:
+                                               ("zero", k)),
+                               "tag": ("fn", k, a[2])}),)
+        return Obj(None, {"gbasis": PyFunc(gb)})
+    elems = [mk(0), mk(1), mk(2)]
+    obj = Obj(cc, {"elems": elems,
+                   "_deduce_bfun": PyFunc(lambda a, k, n: (1, 5))})
+    try:
+        r = Interp(model).call(f, ["MAP", "X", 9, "TIND"], {}, self_obj=obj)
+    except (Unsupported, Raised) as e:
+        raise AnalysisError(f"ElementComposite.gbasis: {e}")
+    ok = (isinstance(r, tuple) and len(r) == 3 and r[0] == ("zero", 0)
+          and r[2] == ("zero", 2) and isinstance(r[1], Obj)
+          and r[1].attrs.get("tag") == ("fn", 1, 5)
+          and all(a[0] == "MAP" and a[1] == "X" and a[3] == "TIND"
+                  for _, a in log))
+    if ok:
+        rep.ok(R6, "ElementComposite.gbasis",
+               "component n evaluates its own function ind, every other "
+               "component contributes the zero field of its own element")
+    else:
+        rep.fail(R6, cc.path, "ElementComposite.gbasis",
+                 "ElementComposite.gbasis",
+                 "the composite basis function is not (0, ..., component "
+                 "n's function ind, ..., 0) with each zero taken from its "
+                 "own component", f.lineno)
 
 
 def _duality(rep, e: ElementInfo, name, path, ln):
@@ -665,6 +794,21 @@ MUTANTS = [
     ("partition of unity: bubble-free part of MINI rescaled",
      (_E + "element_tri/element_tri_p1b.py", "phi = 1. - x - y",
       "phi = 1. - x - 2. * y"), None),
+    ("vector wrapper drops the derivative fields",
+     (_E + "element_vector.py",
+      "        for field in self.elem.gbasis(mapping, X, ind, tind)[0]."
+      "astuple:", "        for field in self.elem.gbasis(mapping, X, ind, "
+      "tind)[0].astuple[:1]:"), "C09-R6"),
+    ("vector wrapper evaluates the scalar function on all cells",
+     (_E + "element_vector.py",
+      "        for field in self.elem.gbasis(mapping, X, ind, tind)[0]."
+      "astuple:", "        for field in self.elem.gbasis(mapping, X, ind)"
+      "[0].astuple:"), "C09-R6"),
+    ("composite: zero fields taken from the active component",
+     (_E + "element_composite.py",
+      "                output.append(e.gbasis(mapping, X, 0, tind)[0]."
+      "zeros())", "                output.append(self.elems[n].gbasis("
+      "mapping, X, 0, tind)[0].zeros())"), "C09-R6"),
     ("matrix element: Piola map applies DF only once",
      (_E + "element_matrix.py",
       "'ijkl,jal,bakl,kl->ibkl', DF, phi, DF,", "'ijkl,jal,abkl,kl->ibkl', "
